@@ -101,6 +101,10 @@ type World struct {
 	uevents []string
 	onYield func(point, key string)
 	fsys    *simfs.FS
+	cap     *capMon
+	// exclusiveInvs: invocation indices of runs made with an exclusive Func.
+	exclusiveInvs  map[uint64]bool
+	nExclusiveRuns int
 }
 
 // sinceStart returns fake nanoseconds since the start of the run (0 before it).
@@ -354,6 +358,9 @@ func (w *World) run() *Outcome {
 	}
 	interp.H = interp.Hooks{Point: w.userPoint, Record: w.record, Partition: w.userPartition, WantKeys: c.Oracle.Placement}
 	exec.VerifSetYield(w.yield)
+	if c.Oracle.Capacity {
+		w.installCapacityMonitor()
+	}
 	if c.Oracle.SingleRunner {
 		inflight := map[string]bool{}
 		var imu sync.Mutex
@@ -391,6 +398,7 @@ func (w *World) run() *Outcome {
 		return o
 	}
 	w.checkObservers()
+	w.checkCapacityAtEnd()
 	w.checkCacheFiles("at end")
 	if c.FS != nil && c.FS.Dump != "" {
 		w.fsys.Dump(c.FS.Dump)
@@ -519,10 +527,36 @@ func (w *World) stepRun(ctx context.Context, path string, st *Step) {
 	}
 	r.ref = ref
 	r.val = ref.Vals[st.Spec.Root()]
+	if st.Exclusive {
+		w.mu.Lock()
+		w.nExclusiveRuns++
+		w.mu.Unlock()
+	}
+	if w.cap != nil {
+		// Sites whose task is exclusive (a pragma anywhere in the pipeline
+		// makes the whole task exclusive; approximated per node).
+		w.cap.mu.Lock()
+		for i, n := range st.Spec.Nodes {
+			for _, p := range n.Prag {
+				if p == "exclusive" {
+					w.cap.exclusive[st.Spec.Site(i)] = true
+				}
+			}
+		}
+		w.cap.mu.Unlock()
+	}
 	res, err := w.sess.Run(ctx, fn, args...)
 	r.err = err
 	if err == nil {
 		r.res = res
+		if st.Exclusive {
+			w.mu.Lock()
+			if w.exclusiveInvs == nil {
+				w.exclusiveInvs = map[uint64]bool{}
+			}
+			w.exclusiveInvs[exec.VerifResultIndex(res)] = true
+			w.mu.Unlock()
+		}
 	}
 	sr.Err = errString(err)
 	if err == nil && w.c.Oracle.Counters {
@@ -650,6 +684,7 @@ func (w *World) userFaultsFired() int {
 // userPoint is called from user functions.
 func (w *World) userPoint(ctx context.Context, site, kind, key string) error {
 	atomic.AddInt64(w.progress, 1)
+	defer w.enterUser(site)()
 	name := "u|" + site + "|" + key
 	w.mu.Lock()
 	w.uocc[name]++
